@@ -57,3 +57,48 @@ Definition sva_generic_total_stmt : Prop :=
     simple_graph g -> (forall v, v < nv g -> In v roots) -> create_index g roots = Some fi ->
     select_ok (fi_csd fi) select -> search_sound g fi search -> search_total fi search ->
     exists cycles total sup, sva_run W w0 wadd select search fi = SvaOk cycles total sup.
+
+(* ---- the same statements with premises restricted to CANONICAL witnesses -----------------------
+   Inside sva_run a search only ever sees a witness that is sorted, non-zero and inside the coordinate
+   range (SvaProofs.sva_inv_row), so the per-phase guarantees are only needed for those. *)
+Definition canonical_witness (fi : forest_index) (S : vec) : Prop :=
+  sorted S /\ S <> [] /\ (forall i, In i S -> i < fi_csd fi).
+
+Definition search_sound_c (g : graph) (fi : forest_index) {W} (search : nat -> vec -> phase_result W) : Prop :=
+  forall k S c w, canonical_witness fi S -> search k S = PFound c w ->
+    in_cycle_space g c /\ pairing fi S c = true.
+
+Definition search_min_c (g : graph) (wts : list Z) (fi : forest_index) (search : nat -> vec -> phase_result Z) : Prop :=
+  forall k S c w, canonical_witness fi S -> search k S = PFound c w ->
+    min_odd_cycle g wts (fun D => pairing fi S D = true) c /\ w = weight wts c.
+
+Definition sva_generic_basis_c_stmt : Prop :=
+  forall (g : graph) (roots : list nat) (fi : forest_index) (W : Type) (w0 : W) (wadd : W -> W -> W)
+         (select : nat -> list vec -> nat) (search : nat -> vec -> phase_result W)
+         (cycles : list (list nat)) (total : W) (sup : list vec),
+    simple_graph g -> (forall v, v < nv g -> In v roots) -> create_index g roots = Some fi ->
+    select_ok (fi_csd fi) select -> search_sound_c g fi search ->
+    sva_run W w0 wadd select search fi = SvaOk cycles total sup ->
+    length cycles = fi_csd fi /\ has_cycle_space_dimension g (length cycles)
+    /\ Forall (in_cycle_space g) cycles
+    /\ triangular (pairing fi) sup cycles
+    /\ nondegenerate (in_cycle_space g) (pairing fi) sup
+    /\ indep cycles /\ spans (in_cycle_space g) cycles.
+
+Definition sva_generic_min_c_stmt : Prop :=
+  forall (g : graph) (wts : list Z) (roots : list nat) (fi : forest_index)
+         (select : nat -> list vec -> nat) (search : nat -> vec -> phase_result Z)
+         (cycles : list (list nat)) (total : Z) (sup : list vec),
+    simple_graph g -> positive_weights g wts ->
+    (forall v, v < nv g -> In v roots) -> create_index g roots = Some fi ->
+    select_ok (fi_csd fi) select -> search_min_c g wts fi search ->
+    sva_run Z 0%Z Z.add select search fi = SvaOk cycles total sup ->
+    min_cycle_basis g wts cycles /\ total = total_weight wts cycles
+    /\ has_cycle_space_dimension g (length cycles).
+
+Definition sva_generic_total_c_stmt : Prop :=
+  forall (g : graph) (roots : list nat) (fi : forest_index) (W : Type) (w0 : W) (wadd : W -> W -> W)
+         (select : nat -> list vec -> nat) (search : nat -> vec -> phase_result W),
+    simple_graph g -> (forall v, v < nv g -> In v roots) -> create_index g roots = Some fi ->
+    select_ok (fi_csd fi) select -> search_sound_c g fi search -> search_total fi search ->
+    exists cycles total sup, sva_run W w0 wadd select search fi = SvaOk cycles total sup.
